@@ -14,7 +14,17 @@ pub enum PsmOp {
 }
 
 #[derive(Clone, Debug)]
+pub enum QOp {
+    AppendPair(String, String),
+    AppendKeyOnly(String),
+    ExtendPairs(Vec<(String, String)>),
+    Clear,
+}
+
+#[derive(Clone, Debug)]
 pub enum Op {
+    /// query_pairs_mut() session; `true` = ended by an explicit finish(), `false` = by dropping the serializer
+    Qpm(bool, Vec<QOp>),
     SetFragment(Option<String>),
     SetQuery(Option<String>),
     SetPath(String),
@@ -68,6 +78,18 @@ impl Op {
                 format!("psm {}", v.join(" "))
             }
             Op::Quirk(name, v) => format!("q_set_{} {}", name, hexs(v)),
+            Op::Qpm(fin, ops) => {
+                let v: Vec<String> = ops
+                    .iter()
+                    .map(|o| match o {
+                        QOp::AppendPair(k, v) => format!("a{}={}", hexs(k), hexs(v)),
+                        QOp::AppendKeyOnly(k) => format!("k{}", hexs(k)),
+                        QOp::ExtendPairs(l) => format!("x{}", l.iter().map(|(k, v)| format!("{}={}", hexs(k), hexs(v))).collect::<Vec<_>>().join(";")),
+                        QOp::Clear => "c".to_string(),
+                    })
+                    .collect();
+                format!("qpm {} {}", if *fin { 1 } else { 0 }, v.join(" ")).trim_end().to_string()
+            }
         }
     }
 
@@ -110,6 +132,31 @@ impl Op {
                     })
                     .collect(),
             ),
+            "qpm" => {
+                let pair = |s: &str| {
+                    let mut it = s.split('=');
+                    (unhexs(it.next().unwrap_or("-")), unhexs(it.next().unwrap_or("-")))
+                };
+                Op::Qpm(
+                    w[1] == "1",
+                    w[2..]
+                        .iter()
+                        .filter(|o| !o.is_empty())
+                        .map(|o| {
+                            let (tag, arg) = o.split_at(1);
+                            match tag {
+                                "a" => {
+                                    let (k, v) = pair(arg);
+                                    QOp::AppendPair(k, v)
+                                }
+                                "k" => QOp::AppendKeyOnly(unhexs(arg)),
+                                "x" => QOp::ExtendPairs(if arg.is_empty() { vec![] } else { arg.split(';').map(pair).collect() }),
+                                _ => QOp::Clear,
+                            }
+                        })
+                        .collect(),
+                )
+            }
             n if n.starts_with("q_set_") => {
                 let name = QUIRK_SETTERS.iter().find(|q| **q == &n[6..])?;
                 Op::Quirk(name, unhexs(w[1]))
@@ -122,6 +169,7 @@ impl Op {
         match self {
             Op::Quirk(n, _) => format!("q_{}", n),
             Op::Psm(_) => "psm".into(),
+            Op::Qpm(f, _) => if *f { "qpm_finish".into() } else { "qpm_drop".into() },
             o => o.token().split(' ').next().unwrap().to_string(),
         }
     }
@@ -176,6 +224,31 @@ impl Op {
                     "ok".into()
                 }
             },
+            Op::Qpm(fin, ops) => {
+                let mut s = u.query_pairs_mut();
+                for o in ops {
+                    match o {
+                        QOp::AppendPair(k, v) => {
+                            s.append_pair(k, v);
+                        }
+                        QOp::AppendKeyOnly(k) => {
+                            s.append_key_only(k);
+                        }
+                        QOp::ExtendPairs(l) => {
+                            s.extend_pairs(l.iter().map(|(k, v)| (k.as_str(), v.as_str())));
+                        }
+                        QOp::Clear => {
+                            s.clear();
+                        }
+                    }
+                }
+                if *fin {
+                    let _ = s.finish();
+                } else {
+                    drop(s);
+                }
+                "ok".into()
+            }
             Op::Quirk(name, v) => match *name {
                 "protocol" => unit(url::quirks::set_protocol(u, v)),
                 "username" => unit(url::quirks::set_username(u, v)),
@@ -255,7 +328,7 @@ pub fn random_op(rng: &mut Rng, quirks_only: bool) -> Op {
     if quirks_only || rng.chance(1, 3) {
         return Op::Quirk(QUIRK_SETTERS[rng.below(9)], pick_s(rng, &pool));
     }
-    match rng.below(13) {
+    match rng.below(14) {
         0 => Op::SetFragment(pick_o(rng, &pool)),
         1 => Op::SetQuery(pick_o(rng, &pool)),
         2 | 3 => Op::SetPath(pick_s(rng, &pool)),
@@ -281,6 +354,20 @@ pub fn random_op(rng: &mut Rng, quirks_only: bool) -> Op {
         8 => Op::SetPassword(pick_o(rng, &pool)),
         9 => Op::SetUsername(pick_s(rng, &pool)),
         10 => Op::SetScheme(pick_s(rng, &pool)),
+        11 => {
+            let n = rng.below(4);
+            Op::Qpm(
+                rng.chance(1, 2),
+                (0..n)
+                    .map(|_| match rng.below(6) {
+                        0 => QOp::Clear,
+                        1 => QOp::AppendKeyOnly(pick_s(rng, &pool)),
+                        2 => QOp::ExtendPairs((0..rng.below(3)).map(|_| (pick_s(rng, &pool), pick_s(rng, &pool))).collect()),
+                        _ => QOp::AppendPair(pick_s(rng, &pool), pick_s(rng, &pool)),
+                    })
+                    .collect(),
+            )
+        }
         _ => {
             let n = 1 + rng.below(3);
             Op::Psm(
@@ -315,6 +402,13 @@ pub fn all_single_ops() -> Vec<Op> {
         for q in QUIRK_SETTERS {
             v.push(Op::Quirk(q, s.clone()));
         }
+    }
+    for fin in [false, true] {
+        v.push(Op::Qpm(fin, vec![]));
+        v.push(Op::Qpm(fin, vec![QOp::Clear]));
+        v.push(Op::Qpm(fin, vec![QOp::AppendPair("k".into(), "v".into())]));
+        v.push(Op::Qpm(fin, vec![QOp::AppendPair("a b&c=d".into(), "\u{e9}+%#".into()), QOp::AppendKeyOnly("key".into())]));
+        v.push(Op::Qpm(fin, vec![QOp::Clear, QOp::ExtendPairs(vec![("x".into(), "1".into()), ("".into(), "".into())])]));
     }
     v.push(Op::SetFragment(None));
     v.push(Op::SetQuery(None));
